@@ -256,12 +256,31 @@ def runItems {S} (step : S → Item → Except String S) : S → List Item → N
 
 def allDone {Pc} (ths : List (Th Pc)) : Bool := ths.all fun t => t.idx == t.ops.length && t.pc.isNone && t.retv.isNone
 
+/-- an operation that cannot lower a float counter: `get`, or an add whose delta is `>= +0` (not NaN) -/
+def floatIncOp (op : String) : Bool :=
+  opName op == "get" || (match floatDelta op with | some d => f64Le 0 d | none => false)
+
+/-- the per-run discharge of the one fact about IEEE addition the float counter's monotonicity rests on
+    (`C01.AddMono`): along the committed log, started from `v`, every step of the sequential specification
+    led to a value `>=` (IEEE order, so no NaN either) the value before it -/
+def floatStepsMonoB : UInt64 → List LinEv → Bool
+  | _, [] => true
+  | v, x :: r =>
+    match specApply true v x.op with
+    | some (v', _) => f64Le v v' && floatStepsMonoB v' r
+    | none => false
+
 def atomReplay (kind : String) (prog : List (List String)) (trace : List Item) : String :=
   let s0 : ASt := { float := kind == "counter" || kind == "gauge", counter := kind == "counter" || kind == "intcounter",
                     ths := prog.map fun ops => { ops := ops } }
   match runItems aItem s0 trace 0 with
   | .error e => e
-  | .ok s => if allDone s.ths then s!"ok final={hexStr s.mem}" else "incomplete"
+  | .ok s =>
+    if !allDone s.ths then "incomplete"
+    -- a float COUNTER run made of `get`s and adds of deltas `>= 0`: the hypothesis of `reads_monotone_float` is checked on this very log
+    else if s0.float && s0.counter && s.lin.all (fun x => floatIncOp x.op) && !floatStepsMonoB 0 s.lin then
+      "float-add-decreased: a committed addition of a delta >= 0 lowered the cell (or produced NaN)"
+    else s!"ok final={hexStr s.mem}"
 
 /-! ## IntCounterVec (C10): critical sections of the children lock -/
 
